@@ -101,7 +101,7 @@ func addSig(m map[string]map[string]bool, field string, sigs []string, suffix st
 // writerLayout: field -> positions written with a value computed from that field.
 func writerLayout(c *Ctx, fn *ssa.Function, typeQ string) map[string]map[string]bool {
 	out := map[string]map[string]bool{}
-	_, writes := ByteAccesses(fn)
+	_, writes := M60ByteAccesses(fn)
 	for _, w := range writes {
 		if !constOff(w) {
 			continue
@@ -132,7 +132,7 @@ func writerLayout(c *Ctx, fn *ssa.Function, typeQ string) map[string]map[string]
 // readerLayout: field -> positions the value stored into that field is computed from.
 func readerLayout(c *Ctx, fn *ssa.Function, typeQ string) map[string]map[string]bool {
 	out := map[string]map[string]bool{}
-	reads, _ := ByteAccesses(fn)
+	reads, _ := M60ByteAccesses(fn)
 	byVal := map[ssa.Value]ByteAccess{}
 	for _, r := range reads {
 		if r.Enc == "copy" {
@@ -265,7 +265,11 @@ func c60(c *Ctx) {
 	}))
 	c.Has(HP, Stores("ipv4.Header.Len").StoredIs("(($0[0]&15)<<2)"))
 	c.Has(HP, Stores("ipv4.Header.Version").StoredIs("($0[0]>>4)"))
-	c.Has(HM, Calls("(encoding/binary.bigEndian).PutUint16").Live().ArgIs(2, "(($r.FragOff&8191)|($r.Flags<<13))"))
+	// the flags/fragment-offset packing is what is written big-endian (in the analysed configuration) at bytes 6..8,
+	// whether through binary.BigEndian directly or through a byte-order value that can only be BigEndian there
+	c.Has(HM, M60ByteWrites("live big-endian 16-bit write of (FragOff&0x1fff)|(Flags<<13)", func(w ByteAccess) bool {
+		return w.Enc == "be" && w.Width == 2 && Term(w.Val) == "(($r.FragOff&8191)|($r.Flags<<13))"
+	}))
 	c.Has(HP, Stores("ipv4.Header.Flags").StoredIs("(($r.FragOff&57344)>>13)"))
 	c.Has(HP, Stores("ipv4.Header.FragOff").StoredIs("($r.FragOff&8191)"))
 	c.Before(HP, Stores("ipv4.Header.Flags"), Stores("ipv4.Header.FragOff").StoredIs("($r.FragOff&8191)"))
@@ -602,8 +606,33 @@ func c60(c *Ctx) {
 		for _, in := range Calls("builtin:append").F(c.P, fn) {
 			if es, ok := VarArgElems(BaselineArgs(&in.(*ssa.Call).Call)[1]); ok {
 				for _, e := range es {
-					if mi, ok := e.(*ssa.MakeInterface); ok {
-						extProduced[Short(mi.X.Type().String())] = true
+					// the appended element may be a merge of the per-case values (one append after the
+					// switch): every value that can reach it counts — a concrete object converted to
+					// Extension, or the first result of a parser call (then what that parser returns)
+					for _, leaf := range PhiLeaves(e) {
+						for {
+							ci, ok := leaf.(*ssa.ChangeInterface)
+							if !ok {
+								break
+							}
+							leaf = ci.X
+						}
+						if mi, ok := leaf.(*ssa.MakeInterface); ok {
+							extProduced[Short(mi.X.Type().String())] = true
+						}
+						if ex, ok := leaf.(*ssa.Extract); ok && ex.Index == 0 {
+							if call, ok := ex.Tuple.(*ssa.Call); ok {
+								if pf := call.Call.StaticCallee(); pf != nil && len(pf.Blocks) > 0 {
+									for _, in := range RetOK().F(c.P, pf) {
+										for _, rl := range PhiLeaves(in.(*ssa.Return).Results[0]) {
+											if mi, ok := rl.(*ssa.MakeInterface); ok {
+												extProduced[Short(mi.X.Type().String())] = true
+											}
+										}
+									}
+								}
+							}
+						}
 					}
 				}
 			}
